@@ -73,14 +73,14 @@ Proof.
   assert (GS : forall a, get_stake dd a = get_stake d a) by (intros a; rewrite !get_stake_stake_of, Sst; reflexivity).
   split.
   - unfold VoteInv. rewrite Sv, Sr, Svt.
-    pose proof (vote_update_inv (c_fixed c) (d_votes d) (d_results d) (d_vtotals d) issue who
+    pose proof (vote_put_inv (c_fixed c) (d_votes d) (d_results d) (d_vtotals d) issue who
                   {| vt_cands := vt_cands old; vt_amount := staked |} r1 VI Hcat Hnn) as L.
     cbn [vt_cands vt_amount] in L. unfold get_vote in G. rewrite G in L. apply L. exact Hsub.
   - intros k v H Hk. rewrite Sv in H. rewrite GS.
-    apply (in_al_set_nodup vkey_eqb vkey_eqb_eq) in H; [|apply VI].
+    apply in_put_vote in H; [|apply VI].
     destruct H as [[-> ->]|[_ H]]; [simpl in Hk; congruence | eauto].
   - intros k v H Hk Hi. rewrite Sv in H. rewrite GS.
-    apply (in_al_set_nodup vkey_eqb vkey_eqb_eq) in H; [|apply VI].
+    apply in_put_vote in H; [|apply VI].
     destruct H as [[-> ->]|[Nk H]]; [cbn [vt_amount]; lia|].
     destruct Hi as [Hi|Hi]; [|eauto].
     exfalso. apply Nk. destruct k; simpl in *; congruence.
